@@ -892,6 +892,12 @@ func runLockstep(t *testing.T, c *Case) *Outcome {
 		_ = rr
 	}
 	o.Stats["obj."+objName]++
+	var dg []string
+	dg = append(dg, fmt.Sprint(choices))
+	for _, op := range all {
+		dg = append(dg, fmt.Sprintf("%d %s %s %d %d", op.task, op.in, op.out, op.call, op.ret))
+	}
+	o.Digest = hashStrings(dg)
 	o.Nontrivial = len(all) >= 2 && nt >= 2
 	return o
 }
